@@ -158,8 +158,10 @@ func (s *Session) HitN(k string, n int) { s.Rep.Histogram[k] += n }
 func (s *Session) Nontrivial()          { s.curNontr = true }
 
 func (s *Session) Fail(sig, what, detail string) {
-	ops := append([]string(nil), s.curOps...)
-	if len(s.Rep.OracleFailures) < 200 {
+	// keep a few failures PER SIGNATURE (not the first N overall: a frequent known finding must never crowd out a
+	// new signature), and every signature is counted in the histogram
+	if s.Rep.Histogram["oracle_fail:"+sig] < 6 && len(s.Rep.OracleFailures) < 3000 {
+		ops := append([]string(nil), s.curOps...)
 		s.Rep.OracleFailures = append(s.Rep.OracleFailures, OracleFailure{Signature: sig, What: what, Case: s.CaseNo, Ops: ops, Detail: detail})
 	}
 	s.Hit("oracle_fail:" + sig)
